@@ -233,6 +233,7 @@ func runC18(r *Run, verifDir string) {
 	r.Import("C18.X10", "numbers rendered in hexadecimal by the name/mask writers are unsigned (no minus sign can appear in a 0x form)", 10, "C17", "C17.N9", nil)
 	r.Import("C18.X11", "the generic containers never keep an element whose decode failed (a half-built Value cannot be re-encoded)", 100, "C02", "C02.R8", func(k string) bool { return strings.HasPrefix(k, "ttlv.") })
 	r.Import("C18.X12", "the JSON writer escapes every caller-provided string", 3, "C04", "C04.L3", nil)
+	r.Import("C18.X14", "decoding never writes through the input buffer: e1 handed to the decoder is still e1 afterwards, so encode(decode(e1)) is compared against the bytes that were actually re-encoded", 2, "C02", "C02.R5", nil)
 }
 
 // ---------------------------------------------------------------- L1
